@@ -127,13 +127,21 @@ CLAIMS["C19"] = {
           "once and only for a syntactically valid bus name whose service file declares exactly that Name together with Exec and User; an invalid name is refused before any file is consulted.",
   "note": "The bus side of C19 (at-most-once start, holding and in-order delivery, failure fan-out, timeouts) is not covered. Unique names are accepted leniently (F1).",
 }
+CLAIMS["C15"] = {
+  "text": "Library receive path only: the real _dbus_read_socket_with_unix_fds against kernel answers of every concrete layout that fits the exactly-sized control buffer (no control "
+          "message, one non-SCM_RIGHTS message, SCM_RIGHTS with 0..capacity descriptors) with symbolic contents, truncation flag and byte count, on a ghost descriptor table: every "
+          "delivered descriptor is handed to the caller in order, open and close-on-exec, or closed exactly once; nothing else is closed; truncation closes everything and fails. "
+          "Plus, from the loader skeleton (C11.L2 job re-run here): a frame announcing more descriptors than were received is corrupt, otherwise exactly the announced number moves "
+          "from the loader to the message.",
+  "note": "NOT covered: the bus's descriptor table across histories, message finalisers, pending-fd timeout and per-connection limit, the send path; refusal to forward fds to peers "
+          "without fd support is asserted in the C05 dispatch check. CMSG_DATA is redefined to its pointer form and memcpy is a byte loop (two CBMC 6.11 modelling defects, see DESIGN R18).",
+}
 NOT_APPLICABLE = {f"C{n:02d}": PENDING for n in range(1, 21)}
 NOT_APPLICABLE["C12"] = ("not decided with this technique here: header edits go through DBusTypeReader delete/set + replacement blocks on DBusString; three encodings in the design round and a "
                          "fixed-capacity in-place-string harness for _dbus_header_remove_unknown_fields (harness/C12_strip.c, concrete two-field header) did not finish symbolic execution "
                          "in 600 s; no partial claim would decide the statement")
 NOT_APPLICABLE["C17"] = ("not built: the pending-call core of dbus-connection.c needs the connection lock/condvar ghost model, DBusHashTable and timeout list models around a 6000-line "
                          "translation unit; real thread interleavings are outside bounded sequential symbolic execution anyway (DESIGN.md section 5)")
-NOT_APPLICABLE["C15"] = ("receive-path harness (harness/C15_recv_fds.c on the real _dbus_read_socket_with_unix_fds) exists but did not decide within 900 s per job; the fd-count comparison of "
-                         "load_message is in the C11 loader skeleton; the bus's descriptor table across histories needs a running process")
+
 NOTES = ("All checks are solver-based (CBMC) over the real sources; see DESIGN.md. Exit 0 = all obligations UNSAT inside the stated bounds; "
          "exit 1 = counterexample (VIOLATION line when the native replay reproduces it); exit 2 = check broken on this tree.")
